@@ -97,7 +97,7 @@ Definition target_of_tref (ty : tref) : target :=
 Definition root_uri (W : wsdl) (r : root_form) : option str :=
   match r with
   | RPlain _ => Some (w_tns W)
-  | RPrefixed p _ => assoc_str p (w_prefixes W)
+  | RPrefixed p _ => resolve_prefix W p        (* declared on the WSDL, or the ever-bound xml *)
   | RBraced u _ => Some u
   end.
 
@@ -171,7 +171,8 @@ Fixpoint step_all (W : wsdl) (m : member) (ts : list target) : option (list targ
       end
   end.
 
-(* a prefixed member inside a path is not one of the spellings of the text: no claim *)
+(* a prefixed member inside a path, or an @attribute that is not the last
+   member, is not one of the spellings of the text: no claim *)
 Fixpoint steps (W : wsdl) (ms : list member) (ts : list target) : option (list target) :=
   match ms with
   | [] => Some ts
@@ -179,6 +180,7 @@ Fixpoint steps (W : wsdl) (ms : list member) (ts : list target) : option (list t
       match m_prefix m with
       | Some _ => None
       | None =>
+          if m_attr m && match ms' with [] => false | _ => true end then None else
           match step_all W m ts with
           | Some ts' => steps W ms' ts'
           | None => None
@@ -186,14 +188,19 @@ Fixpoint steps (W : wsdl) (ms : list member) (ts : list target) : option (list t
       end
   end.
 
-Definition designate (W : wsdl) (sp : spelling) : designation :=
+(* One designation per thing the root name denotes: XSD keeps elements and
+   types in separate symbol spaces, so a name may denote an element and a type
+   at once; the text does not say which one create() picks, either is accepted. *)
+Definition designate (W : wsdl) (sp : spelling) : list designation :=
   match root_targets W (sp_root sp) with
+  | DTargets [] =>
+      [match steps W (sp_members sp) [] with Some ts' => DTargets ts' | None => DNoClaim end]
   | DTargets ts =>
-      match steps W (sp_members sp) ts with
-      | Some ts' => DTargets ts'
-      | None => DNoClaim
-      end
-  | d => d
+      map (fun tg => match steps W (sp_members sp) [tg] with
+                     | Some ts' => DTargets ts'
+                     | None => DNoClaim
+                     end) ts
+  | d => [d]
   end.
 
 (* ------------------------------------------------------------------ *)
@@ -237,52 +244,68 @@ Definition absent_ok (path : list qn) (e : sentry) : bool :=
              match e_type d with TNamed ns n => qn_in (ns, n) path | TBuiltin => false end)
   end.
 
+(* matching the element members of an object against the expected entries, in
+   order: every item must be the next expected entry that is present; entries
+   passed over must be allowed to be absent *)
+Section Match.
+Variable present : sentry -> key -> pv -> bool.
+Variable absent : sentry -> bool.
+
+Fixpoint skip_to (pres : sentry -> bool) (rest : list sentry -> bool) (exp : list sentry) : bool :=
+  match exp with
+  | [] => false
+  | e :: exp' =>
+      if pres e then rest exp'
+      else if absent e then skip_to pres rest exp' else false
+  end.
+
+Fixpoint match_members (exp : list sentry) (its : keylist) : bool :=
+  match its with
+  | [] => forallb absent exp
+  | (k, x) :: its' =>
+      if snd k then match_members exp its'          (* attributes are checked separately *)
+      else skip_to (fun e => present e k x) (fun exp' => match_members exp' its') exp
+  end.
+End Match.
+
 Section Mirrors.
 Variable W : wsdl.
 Variable strict : bool.      (* strict = the letter of the text; lenient = what may also be read into it *)
+
+(* the value of a present member, given how a nested object is judged *)
+Definition value_ok (sub : list qn -> ctype -> pv -> bool) (path : list qn) (e : sentry) (k : key) (x : pv) : bool :=
+  match e with
+  | SWild => false
+  | SE d ch op =>
+      negb ch && N.eqb (e_name d) (fst k) &&
+      (if e_multi d then is_plist x                 (* repeating: empty list *)
+       else if e_opt d then is_pnone x              (* optional: None *)
+       else match e_type d with
+            | TBuiltin => is_pnone x
+            | TNamed ns n =>
+                match find_named W (ns, n) with
+                | Some (SComplex t') =>
+                    match exp_members W t', exp_attrs W t' with
+                    | [], [] => is_pnone x || is_empty_obj x
+                    | _, _ =>
+                        sub ((ns, n) :: path) t' x    (* pre-built recursively *)
+                        || (is_pnone x && (op || qn_in (ns, n) path))
+                    end
+                | Some (SSimple _ _ vals) =>
+                    is_pnone x ||
+                    (negb strict && match vals with [] => false | _ => true end
+                     && is_property_none x)
+                | _ => is_pnone x
+                end
+            end)
+  end.
 
 Fixpoint mirrors (path : list qn) (t : ctype) (v : pv) {struct v} : bool :=
   match v with
   | PObj _ items =>
       attrs_match (exp_attrs W t) (filter is_attr_item items) &&
-      (fix go (exp : list sentry) (its : keylist) {struct its} : bool :=
-         match its with
-         | [] => forallb (absent_ok path) exp
-         | (k, x) :: its' =>
-             if snd k then go exp its' else
-             (fix skip (exp : list sentry) : bool :=
-                match exp with
-                | [] => false
-                | e :: exp' =>
-                    if match e with
-                       | SWild => false
-                       | SE d ch op =>
-                           negb ch && N.eqb (e_name d) (fst k) &&
-                           (if e_multi d then is_plist x                 (* repeating: empty list *)
-                            else if e_opt d then is_pnone x              (* optional: None *)
-                            else match e_type d with
-                                 | TBuiltin => is_pnone x
-                                 | TNamed ns n =>
-                                     match find_named W (ns, n) with
-                                     | Some (SComplex t') =>
-                                         match exp_members W t', exp_attrs W t' with
-                                         | [], [] => is_pnone x || is_empty_obj x
-                                         | _, _ =>
-                                             mirrors ((ns, n) :: path) t' x    (* pre-built recursively *)
-                                             || (is_pnone x && (op || qn_in (ns, n) path))
-                                         end
-                                     | Some (SSimple _ _ vals) =>
-                                         is_pnone x ||
-                                         (negb strict && match vals with [] => false | _ => true end
-                                          && is_property_none x)
-                                     | _ => is_pnone x
-                                     end
-                                 end)
-                       end
-                    then go exp' its'
-                    else if absent_ok path e then skip exp' else false
-                end) exp
-         end) (exp_members W t) items
+      match_members (fun e k x => value_ok (fun p t' y => mirrors p t' y) path e k x)
+                    (absent_ok path) (exp_members W t) items
   | _ => false
   end.
 
@@ -307,13 +330,16 @@ Definition target_ok (tg : target) (v : pv) : bool :=
       end
   end.
 
-Definition spec_check (sp : spelling) (r : result) : bool :=
-  match designate W sp with
+Definition outcome_ok (d : designation) (r : result) : bool :=
+  match d with
   | DNoClaim => true
   | DBadPrefix => match r with RTypeNotFound => true | ROther => negb strict | _ => false end
   | DTargets [] => match r with RTypeNotFound => true | _ => false end
   | DTargets ts => match r with ROk v => existsb (fun tg => target_ok tg v) ts | _ => false end
   end.
+
+Definition spec_check (sp : spelling) (r : result) : bool :=
+  existsb (fun d => outcome_ok d r) (designate W sp).
 
 End Mirrors.
 
@@ -343,7 +369,7 @@ Definition create_strict_ok (c : ccase) : bool := spec_on true c.
 Definition create_claimed (c : ccase) : bool :=
   match cc_sp c with
   | None => false
-  | Some sp => match designate (cc_w c) sp with DNoClaim => false | _ => true end
+  | Some sp => negb (existsb (fun d => match d with DNoClaim => true | _ => false end) (designate (cc_w c) sp))
   end.
 
 (* PathResolver.split / qualify called directly *)
